@@ -22,21 +22,37 @@ def names(n):
 
 
 def reach(graph, roots):
+    """modules that get loaded: dependencies, and the front-ends a back-end names with ^"""
     seen, st = [], list(roots)
     while st:
         x = st.pop()
         if x in seen:
             continue
         seen.append(x)
-        st += [y for y in graph.get(x, ())]
+        st += [y.lstrip('^') for y in graph.get(x, ())]
     return set(seen)
+
+
+def dep_edges(graph):
+    """(dependent, dependency, declared by the dependency itself with ^?)"""
+    out = []
+    for a, ds in graph.items():
+        for d in ds:
+            if d.startswith('^'):
+                out.append((d[1:], a, True))
+            else:
+                out.append((a, d, False))
+    return out
 
 
 def cyclic(graph, nodes):
     color = {}
+    adj = {}
+    for a, c, anti in dep_edges(graph):
+        adj.setdefault(a, []).append(c)
     def dfs(u):
         color[u] = 1
-        for v in graph.get(u, ()):
+        for v in adj.get(u, ()):
             if v not in nodes:
                 continue
             if color.get(v) == 1 or (color.get(v) is None and dfs(v)):
@@ -128,14 +144,17 @@ def judge(case, rc, ev, out, err):
                 V.append(('C20.count', '%s of %s happened %d times (expected once)' % (what, m, n)))
             if m not in R and n:
                 V.append(('C20.count', '%s of %s happened although nothing requires that module' % (what, m)))
-    for a in sorted(R):
-        for c in graph.get(a, ()):
+    for a, c, anti in dep_edges(graph):
+        if a not in R or c not in R:
+            continue
+        if not anti:
             if ('ctor-end', a) in pos and ('ctor-end', c) in pos and not pos[('ctor-end', c)] < pos[('ctor-end', a)]:
                 V.append(('C20.ctor-order', '%s finished constructing before its dependency %s' % (a, c)))
             if ('post-init', a) in pos and ('post-init', c) in pos and not pos[('post-init', c)] < pos[('post-init', a)]:
                 V.append(('C20.postinit-order', 'post-init of %s ran before that of its dependency %s' % (a, c)))
-            if ('dtor', a) in pos and ('dtor', c) in pos and not pos[('dtor', a)] < pos[('dtor', c)]:
-                V.append(('C20.dtor-order', 'destructor of %s ran before that of %s, which depends on it' % (c, a)))
+        # a back-end that named its front-end with module_antidepends() "must be unloaded after it" (README); same rule as for a dependency
+        if ('dtor', a) in pos and ('dtor', c) in pos and not pos[('dtor', a)] < pos[('dtor', c)]:
+            V.append(('C20.dtor-order', 'destructor of %s ran before that of %s, which %s' % (c, a, 'is its front-end (module_antidepends)' if anti else 'depends on it')))
     if ('running', listing[0]) in pos:
         r = pos[('running', listing[0])]
         for m in R:
@@ -216,6 +235,21 @@ def cases(quick):
         if not cyclic(g, set(nm4)):
             for sub in ((nm4[3],), (nm4[2],), tuple(nm4)):
                 cs.append((g, [nm4[0]], None, frozenset(sub)))
+    # back-ends declared with module_antidepends(): one such edge alone, and next to one ordinary dependency, in every labelling and listing
+    for n in (2, 3):
+        nm = names(n)
+        for back, front in itertools.permutations(nm, 2):
+            for extra in [None] + [(a, c) for a, c in itertools.permutations(nm, 2) if (a, c) != (front, back) and (a, c) != (back, front)]:
+                g = {m: [] for m in nm}
+                g[back].append('^' + front)
+                if extra:
+                    g[extra[0]].append(extra[1])
+                g = {k: tuple(v) for k, v in g.items()}
+                if cyclic(g, set(nm)):
+                    continue
+                for l in listings(nm):
+                    if back in reach(g, l):
+                        cs.append((g, l, None))
     # unloadable modules: a listed module, or a dependency, without a .so
     for g, l, have in [({'m1': ('m2',), 'm2': ()}, ['m1'], {'m1'}), ({'m1': (), 'm2': ()}, ['m1', 'm2'], {'m1'}), ({'m1': (), 'm2': ()}, ['m2', 'm1'], {'m1'}),
                        ({'m1': ('m2',), 'm2': ('m3',), 'm3': ()}, ['m1'], {'m1', 'm2'}), ({'m1': ('m2', 'm3'), 'm2': (), 'm3': ()}, ['m1'], {'m1', 'm3'}),
@@ -234,8 +268,8 @@ def shape_class(case):
     g, l, have = case[:3]
     R = reach(g, l)
     indeg = {}
-    for a in R:
-        for c in g.get(a, ()):
+    for a, c, anti in dep_edges(g):
+        if a in R and c in R:
             indeg[c] = indeg.get(c, 0) + 1
     if have is not None:
         return 'missing'
